@@ -79,6 +79,10 @@ let () =
                    Printf.printf "%d skip\n" !ln
                  | "file" :: _ -> if i 1 >= 0 && i 1 < !nfiles then begin st := gfile !st (zi 1); Printf.printf "%d ok\n" !ln end
                                   else Printf.printf "%d fail\n" !ln
+                 | "dffidlen" :: _ -> let (s', r) = g_fann_len !st (z 0) (i 1 <> 0) in st := s'; show r
+                 | "dffdslen" :: _ -> let (s', r) = g_fann_len !st (z 1) (i 1 <> 0) in st := s'; show r
+                 | "dffid" :: _ -> let (s', r) = g_fann_get !st (z 0) (i 1 <> 0) (zi 2) in st := s'; show r
+                 | "dffds" :: _ -> let (s', r) = g_fann_get !st (z 1) (i 1 <> 0) (zi 2) in st := s'; show r
                  | "gettagref" :: _ -> let (s', r) = g_gettagref !st (zi 1) (zi 2) in st := s'; show r
                  | "key" :: _ -> let k = aN_CREATE_KEY (zi 1) (zi 2) in
                    Printf.printf "%d ok %d %d %d\n" !ln (iz k) (iz (aN_KEY2TYPE k)) (iz (aN_KEY2REF k))
